@@ -13,6 +13,7 @@ import (
 	"fmt"
 	"math/rand"
 	"os"
+	pathpkg "path"
 	"strings"
 	"time"
 
@@ -35,8 +36,51 @@ type Case struct {
 	BetaSame bool          `json:"beta_same,omitempty"`
 }
 
-// patsCoq renders the pattern list as dpat terms: exclusion flag, cleaned
-// text, and the subset of the given paths each pattern matches by itself.
+// refPrep is the harness' transcription of how Docker reads one line of a
+// .dockerignore (buildkit dockerignore.ReadAll: trim, split off '!', trim,
+// Clean, drop a leading '/', put '!' back) followed by patternmatcher.New (trim,
+// Clean, leading '!' = exclusion). It is only used to build the match table of
+// the reference patterns; the Coq side recomputes it (docker_prep) and rejects
+// the case if the two differ.
+func refPrep(raw string) (excl bool, text string, ok bool) {
+	if strings.HasPrefix(raw, "#") {
+		return
+	}
+	p := strings.TrimSpace(raw)
+	if p == "" {
+		return
+	}
+	invert := p[0] == '!'
+	if invert {
+		p = strings.TrimSpace(p[1:])
+	}
+	if len(p) > 0 {
+		p = pathpkg.Clean(p)
+		if len(p) > 1 && p[0] == '/' {
+			p = p[1:]
+		}
+	}
+	if invert {
+		p = "!" + p
+	}
+	p = strings.TrimSpace(p)
+	if p == "" {
+		return
+	}
+	p = pathpkg.Clean(p)
+	if p[0] == '!' {
+		if len(p) == 1 {
+			return
+		}
+		return true, p[1:], true
+	}
+	return false, p, true
+}
+
+// patsCoq renders the pattern list as rawpat terms: the user's text, what the
+// real preprocessing made of it, the reference reading, and the subset of the
+// given paths the reference pattern matches by itself (real per-pattern
+// matcher, built from the already clean reference text).
 func patsCoq(raws []string, m *dockerignore.VerifMatcher, paths []string) string {
 	texts, excls := m.Patterns()
 	if len(texts) != len(raws) {
@@ -44,9 +88,17 @@ func patsCoq(raws []string, m *dockerignore.VerifMatcher, paths []string) string
 	}
 	items := make([]string, len(texts))
 	for i := range texts {
-		single, err := dockerignore.VerifNewMatcher([]string{raws[i]})
+		re, rt, ok := refPrep(raws[i])
+		if !ok {
+			panic(fmt.Sprintf("the implementation accepts pattern %q, which Docker skips or rejects", raws[i]))
+		}
+		refRaw := rt
+		if re {
+			refRaw = "!" + rt
+		}
+		single, err := dockerignore.VerifNewMatcher([]string{refRaw})
 		if err != nil {
-			panic(err)
+			panic(fmt.Sprintf("reference pattern %q (from %q) rejected: %v", refRaw, raws[i], err))
 		}
 		var hits []string
 		for _, p := range paths {
@@ -54,7 +106,8 @@ func patsCoq(raws []string, m *dockerignore.VerifMatcher, paths []string) string
 				hits = append(hits, p)
 			}
 		}
-		items[i] = fmt.Sprintf("Dp %s %s %s", igntree.Bool(excls[i]), coretree.Str(texts[i]), igntree.Strs(hits))
+		items[i] = fmt.Sprintf("Dr %s %s %s %s %s %s", coretree.Str(raws[i]), igntree.Bool(excls[i]), coretree.Str(texts[i]),
+			igntree.Bool(re), coretree.Str(rt), igntree.Strs(hits))
 	}
 	return "[" + strings.Join(items, "; ") + "]"
 }
@@ -89,6 +142,23 @@ func hasPhantom(e *core.Entry) bool {
 
 func runCase(c Case) (coq string, nontrivial bool, tags []string) {
 	tags = append(tags, "kind:"+c.K, fmt.Sprintf("patterns:%d", min(len(c.Raws), 6)))
+	if c.K == "prep" {
+		res := "None"
+		if pm, err := dockerignore.VerifNewMatcher([]string{c.Path}); err == nil {
+			texts, excls := pm.Patterns()
+			if len(texts) == 1 {
+				res = fmt.Sprintf("(Some (%s, %s))", igntree.Bool(excls[0]), coretree.Str(texts[0]))
+				nontrivial = strings.TrimPrefix(c.Path, "!") != texts[0]
+				tags = append(tags, "prep:accepted")
+			} else {
+				tags = append(tags, "prep:dropped")
+			}
+		} else {
+			tags = append(tags, "prep:rejected")
+		}
+		coq = fmt.Sprintf("Dpp %s %s", coretree.Str(c.Path), res)
+		return
+	}
 	m, err := dockerignore.VerifNewMatcher(c.Raws)
 	if err != nil {
 		panic("case with invalid patterns: " + err.Error())
@@ -174,18 +244,45 @@ func genPattern(r *rand.Rand) string {
 		parts[i] = genComp(r)
 	}
 	p := strings.Join(parts, "/")
-	switch r.Intn(20) {
+	// texts that are not in clean form: Docker (and Mutagen) clean them after
+	// the '!' has been split off
+	switch r.Intn(24) {
 	case 0:
 		p = "/" + p
 	case 1:
 		p += "/"
 	case 2:
 		p = " " + p
+	case 3, 4:
+		p = "./" + p
+	case 5:
+		p = names[r.Intn(len(names))] + "/../" + p
+	case 6:
+		p = strings.Replace(p, "/", "//", 1)
+	case 7:
+		p += "/."
+	case 8:
+		p = strings.Replace(p, "/", "/./", 1)
+	case 9:
+		p = "./" + p + "/"
 	}
 	if r.Intn(5) < 2 {
-		p = "!" + p
+		if r.Intn(8) == 0 {
+			p = "! " + p
+		} else {
+			p = "!" + p
+		}
 	}
 	return p
+}
+
+// genRawPattern generates one user pattern for the preprocessing cases,
+// including texts the validation rejects.
+func genRawPattern(r *rand.Rand) string {
+	if r.Intn(10) == 0 {
+		return []string{"", " ", "!", "! ", "/", "!/", ".", "!.", "..", "!..", "./", "!./", "//", "a/..", "!a/..", "/..", "!/a", "/a/", " a ", "!  a/b "}[r.Intn(20)]
+	}
+	return genPattern(r)
 }
 
 func genPatterns(r *rand.Rand, max int) []string {
@@ -252,7 +349,16 @@ func genReinclude(r *rand.Rand, t *igntree.Node) []string {
 	if kids := node.SortedNames(); len(kids) > 0 && r.Intn(3) > 0 {
 		keep = kids[r.Intn(len(kids))]
 	}
-	out := []string{excl, "!" + d + "/" + keep}
+	reinc := d + "/" + keep
+	switch r.Intn(6) {
+	case 0:
+		reinc = "./" + reinc
+	case 1:
+		reinc = names[r.Intn(len(names))] + "/../" + reinc
+	case 2:
+		reinc = strings.Replace(reinc, "/", "//", 1)
+	}
+	out := []string{excl, "!" + reinc}
 	for k := r.Intn(3); k > 0; k-- {
 		out = append(out, genPattern(r))
 	}
@@ -477,8 +583,11 @@ func main() {
 	if cfg.Thorough() {
 		scale = 25
 	}
-	for i := 0; i < 1000*scale; i++ {
+	for i := 0; i < 800*scale; i++ {
 		add(Case{K: "query", Raws: genPatterns(r, 5), Path: genPath(r), Dir: r.Intn(2) == 0}, "random")
+	}
+	for i := 0; i < 400*scale; i++ {
+		add(Case{K: "prep", Path: genRawPattern(r)}, "random")
 	}
 	for t := 0; t < 60*scale; t++ {
 		tr := igntree.Random(r, 4, 4, names)
